@@ -44,3 +44,11 @@ m = {
 }
 json.dump(m, open(os.path.join(here, "..", "MANIFEST.json"), "w"), indent=1)
 print("MANIFEST.json: %d checks, %d not claimed" % (len(checks), len(na)))
+
+import glob
+kf = {"findings": [], "fixed": []}
+for p in sorted(glob.glob(os.path.join(here, "..", "known_findings.d", "*.json"))):
+    d = json.load(open(p))
+    kf["findings"] += d.get("findings", [])
+    kf["fixed"] += d.get("fixed", [])
+json.dump(kf, open(os.path.join(here, "..", "known_findings.json"), "w"), indent=1)
